@@ -43,6 +43,7 @@ def main():
             tier = args[i + 1]
     patch = os.path.join(seed, "patch.diff")
     res = {"property": prop, "seed": seed, "checks": {}}
+    res["base_commit"] = sh("git -C /repo rev-parse --short HEAD")[1].strip()
     touched = re.findall(r"^\+\+\+ b/(\S+)", open(patch).read(), re.M)
     res["files"] = touched
     demo = None
@@ -142,7 +143,7 @@ def main():
         except Exception:
             pass
         conf = dict(old.get("confirmed_by_seedcheck") or {})
-        for k in ("applies", "builds", "demo_without_patch", "demo_with_patch", "pkg_tests", "root_suite"):
+        for k in ("base_commit", "applies", "builds", "demo_without_patch", "demo_with_patch", "pkg_tests", "root_suite"):
             if res.get(k) is not None:
                 conf[k] = res.get(k)
         meta["confirmed_by_seedcheck"] = conf
